@@ -22,6 +22,7 @@ func fieldArrName(structT types.Type, f *types.Var) string {
 
 func (vc *VC) fieldArr(s *State, structT types.Type, f *types.Var) (string, *Term) {
 	name := fieldArrName(structT, f)
+	vc.heapGoTypes[name] = f.Type()
 	return name, vc.heapArr(s, name, ArraySort(SInt, sortOf(f.Type())))
 }
 
@@ -29,6 +30,7 @@ func boxArrName(t types.Type) string { return "Box." + typeKey(t) }
 
 func (vc *VC) boxArr(s *State, t types.Type) (string, *Term) {
 	name := boxArrName(t)
+	vc.heapGoTypes[name] = t
 	return name, vc.heapArr(s, name, ArraySort(SInt, sortOf(t)))
 }
 
@@ -56,6 +58,7 @@ func (vc *VC) loadField(s *State, structT types.Type, f *types.Var, ref *Term) *
 
 func (vc *VC) storeField(s *State, structT types.Type, f *types.Var, ref, v *Term) {
 	name, arr := vc.fieldArr(s, structT, f)
+	vc.writeAllowed(s, name, ref)
 	n := Fresh(name, arr.Sort)
 	s.assume(Eq(n, Store(arr, ref, v)))
 	s.heap[name] = n
@@ -94,9 +97,69 @@ func (vc *VC) storePtr(s *State, elemT types.Type, ref, v *Term) {
 		return
 	}
 	name, arr := vc.boxArr(s, elemT)
+	vc.writeAllowed(s, name, ref)
 	n := Fresh(name, arr.Sort)
 	s.assume(Eq(n, Store(arr, ref, v)))
 	s.heap[name] = n
+}
+
+// writeAllowed: every heap write must be inside the function's modifies clause or on an object allocated
+// after entry (Dafny-style frame discipline; loops and calls may then assume the frame).
+func (vc *VC) writeAllowed(s *State, arrName string, ref *Term) {
+	if vc.quiet || vc.entry == nil || vc.modAll {
+		return
+	}
+	a := vc.topMods[arrName]
+	if a != nil && a.whole {
+		return
+	}
+	var alts []*Term
+	if ref != nil {
+		alts = append(alts, Ge(ref, vc.entry.alloc))
+		if a != nil {
+			for _, x := range a.refs {
+				alts = append(alts, Eq(ref, x))
+			}
+		}
+	}
+	site := "write"
+	if vc.curStmt != nil {
+		site = vc.siteName("stmt", vc.curStmt)
+	}
+	vc.oblige(s, "frame", site+":"+arrName, "write to "+arrName+" must be covered by the modifies clause (or hit an object allocated by this call)", vc.curPos, Or(alts...))
+}
+
+// assumeFrame: after a havoc of heap array name, locations outside the function's modifies clause on objects
+// allocated at entry still hold their entry values (justified by the writeAllowed obligations).
+func (vc *VC) assumeFrame(s *State, name string) {
+	if vc.entry == nil || vc.modAll || s.epoch != "0" {
+		return
+	}
+	a := vc.topMods[name]
+	if a != nil && a.whole {
+		return
+	}
+	srt := vc.heapSorts[name]
+	if srt == nil || srt.Key == nil {
+		if srt != nil {
+			// global value not in modifies: unchanged
+			s.assume(Eq(s.heap[name], vc.heapArr(vc.entry, name, srt)))
+		}
+		return
+	}
+	cur := s.heap[name]
+	old := vc.heapArr(vc.entry, name, srt)
+	if cur == old {
+		return
+	}
+	r := BoundVar("fr", SInt)
+	conds := []*Term{Le(IntLit(0), r), Lt(r, vc.entry.alloc)}
+	if a != nil {
+		for _, x := range a.refs {
+			conds = append(conds, Not(Eq(r, x)))
+		}
+	}
+	s.assume(Forall([]*Term{r}, Implies(And(conds...), Eq(Select(cur, r), Select(old, r))), []*Term{Select(cur, r)}))
 }
 
 // allocRef returns a fresh non-nil reference.
@@ -132,6 +195,8 @@ func (vc *VC) mapArrs(s *State, mt *types.Map) mapArrs {
 	ks, vs := sortOf(mt.Key()), sortOf(mt.Elem())
 	k := mapKeyName(mt)
 	m := mapArrs{domName: "MD." + k, valName: "MV." + k, cardName: "MC." + k, ks: ks, vs: vs}
+	vc.heapGoTypes[m.valName] = mt.Elem()
+	vc.mapValArr[m.valName] = true
 	m.dom = vc.heapArr(s, m.domName, ArraySort(SInt, ArraySort(ks, SBool)))
 	m.val = vc.heapArr(s, m.valName, ArraySort(SInt, ArraySort(ks, vs)))
 	m.card = vc.heapArr(s, m.cardName, ArraySort(SInt, SInt))
@@ -153,6 +218,7 @@ func (vc *VC) mapGet(s *State, mt *types.Map, m, k *Term) (v, ok *Term) {
 
 func (vc *VC) mapSet(s *State, mt *types.Map, m, k, v *Term) {
 	a := vc.mapArrs(s, mt)
+	vc.writeAllowed(s, a.domName, m)
 	was := Select(Select(a.dom, m), k)
 	nd := Fresh(a.domName, a.dom.Sort)
 	s.assume(Eq(nd, Store(a.dom, m, Store(Select(a.dom, m), k, True))))
@@ -165,6 +231,7 @@ func (vc *VC) mapSet(s *State, mt *types.Map, m, k, v *Term) {
 
 func (vc *VC) mapDelete(s *State, mt *types.Map, m, k *Term) {
 	a := vc.mapArrs(s, mt)
+	vc.writeAllowed(s, a.domName, Ite(Eq(m, IntLit(0)), vc.entry0alloc(), m))
 	was := Select(Select(a.dom, m), k)
 	nd := Fresh(a.domName, a.dom.Sort)
 	// delete on nil map is a no-op
@@ -193,13 +260,24 @@ func (vc *VC) mapLen(s *State, mt *types.Map, m *Term) *Term {
 }
 
 // havocHeap forgets everything about the heap (unknown call).
+func (vc *VC) entry0alloc() *Term {
+	if vc.entry != nil {
+		return vc.entry.alloc
+	}
+	return IntLit(0)
+}
+
 func (vc *VC) havocHeap(s *State, why string) {
+	if vc.entry != nil && !vc.modAll && !vc.quiet {
+		vc.oblige(s, "frame", "havoc", "code that may modify the whole heap ("+why+") needs 'modifies *'", vc.curPos, False)
+	}
 	s.heap = map[string]*Term{}
 	vc.epochCtr++
 	s.epoch = fmt.Sprintf("h%d", vc.epochCtr)
 	na := Fresh("alloc", SInt)
 	s.assume(Ge(na, s.alloc))
 	s.alloc = na
+	vc.epochAlloc[s.epoch] = na
 }
 
 // havocArr replaces one heap array by a fresh unconstrained version.
@@ -242,4 +320,59 @@ func shiftAxioms(used map[*Decl]bool) []*Term {
 		out = append(out, Forall([]*Term{e, o, i}, Eq(Select(sh, i), Select(e, Add(i, o))), []*Term{Select(sh, i)}))
 	}
 	return out
+}
+
+func isRefType(t types.Type) bool {
+	switch t.Underlying().(type) {
+	case *types.Pointer, *types.Map, *types.Chan:
+		return true
+	}
+	return false
+}
+
+// rootFact: heap well-formedness of a freshly introduced (unconstrained) heap array version: every reference
+// stored in it is allocated (< alloc) and non-negative. Needed so that fresh objects are known to be distinct from
+// everything reachable, also inside quantified specifications.
+func (vc *VC) rootFact(name string, arr *Term, alloc *Term) *Term {
+	t := vc.heapGoTypes[name]
+	if t == nil || arr.Sort.Key == nil {
+		return True
+	}
+	x := BoundVar("hx", SInt)
+	cell := Select(arr, x)
+	guard := And(Le(IntLit(0), x), Lt(x, alloc))
+	var body *Term
+	var vars = []*Term{x}
+	var pat *Term
+	if vc.mapValArr[name] {
+		k := BoundVar("hk", arr.Sort.Val.Key)
+		vars = append(vars, k)
+		cell = Select(cell, k)
+	}
+	switch u := t.Underlying().(type) {
+	case *types.Pointer, *types.Map, *types.Chan:
+		body = And(Le(IntLit(0), cell), Lt(cell, alloc))
+		pat = cell
+	case *types.Slice:
+		if !isRefType(u.Elem()) {
+			return True
+		}
+		i := BoundVar("hi", SInt)
+		vars = append(vars, i)
+		el := Select(sliceElems(cell), i)
+		body = And(Le(IntLit(0), el), Lt(el, alloc))
+		pat = el
+	case *types.Array:
+		if !isRefType(u.Elem()) {
+			return True
+		}
+		i := BoundVar("hi", SInt)
+		vars = append(vars, i)
+		el := Select(cell, i)
+		body = And(Le(IntLit(0), el), Lt(el, alloc))
+		pat = el
+	default:
+		return True
+	}
+	return Forall(vars, Implies(guard, body), []*Term{pat})
 }
